@@ -2,12 +2,18 @@
    run_case  : the Impl model evaluated on a case of a component;
    oracle    : the Spec-layer judgement of a property on the IMPLEMENTATION's observations. *)
 From Coq Require Import NArith List.
-From ACPI Require Import Lib.Bytes Lib.Sx Impl.Checksum Spec.ChecksumS Impl.AmlCore Spec.AmlCoreS.
+From ACPI Require Import Lib.Bytes Lib.Sx Impl.Checksum Spec.ChecksumS Impl.AmlCore Spec.AmlCoreS Spec.Layout.
+From ACPI Require Import Impl.Xsdt Impl.Mcfg Impl.Madt Impl.Srat Impl.Slit Impl.Hmat Impl.Pptt Impl.Rhct Impl.Rimt
+  Impl.Viot Impl.Cedt Impl.Hest Impl.Rqsc Impl.Tpm2 Impl.Fadt Impl.Bert Impl.Spcr Impl.Facs Impl.Rsdp Impl.Sdt.
+From ACPI Require Import Spec.XsdtS Spec.McfgS Spec.MadtS Spec.SratS Spec.SlitS Spec.HmatS Spec.PpttS Spec.RhctS Spec.RimtS
+  Spec.ViotS Spec.CedtS Spec.HestS Spec.RqscS Spec.Tpm2S Spec.FadtS Spec.BertS Spec.SpcrS Spec.FacsS Spec.RsdpS Spec.SdtS.
 Import ListNotations.
 Open Scope N_scope.
 
-(* component ids: 1 checksum accumulator; 2 create_pkg_length (hook); 3 integer constants; 4 Path::new + encode;
-   5 EISAName; 6 Uuid *)
+(* component ids:
+   1 checksum accumulator; 2 create_pkg_length (hook); 3 integer constants; 4 Path::new + encode; 5 EISAName; 6 Uuid;
+   10 XSDT 11 MCFG 12 MADT 13 SRAT 14 SLIT 15 HMAT 16 PPTT 17 RHCT 18 RIMT 19 VIOT 20 CEDT 21 HEST 22 RQSC
+   23 Tpm2 24 TpmServer1_2 25 TpmClient1_2 26 FADT 27 BERT 28 SPCR 29 FACS 30 RSDP 31 Sdt *)
 Definition run_case (md : mode) (comp : N) (c : sx) : list ev :=
   match comp with
   | 1 => ck_case c
@@ -16,11 +22,55 @@ Definition run_case (md : mode) (comp : N) (c : sx) : list ev :=
   | 4 => path_case c
   | 5 => eisa_case c
   | 6 => uuid_case md c
+  | 10 => xsdt_case md c | 11 => mcfg_case md c | 12 => madt_case md c | 13 => srat_case md c
+  | 14 => slit_case md c | 15 => hmat_case md c | 16 => pptt_case md c | 17 => rhct_case md c
+  | 18 => rimt_case md c | 19 => viot_case md c | 20 => cedt_case md c | 21 => hest_case md c
+  | 22 => rqsc_case md c | 23 => tpm2_case md c | 24 => tpmserver_case md c | 25 => tpmclient_case md c
+  | 26 => fadt_case md c | 27 => bert_case md c | 28 => spcr_case md c | 29 => facs_case md c
+  | 30 => rsdp_case md c | 31 => sdt_case md c
   | _ => [EvPanic]
+  end.
+
+Definition spec_of (comp : N) : tspec :=
+  match comp with
+  | 10 => xsdt_spec | 11 => mcfg_spec | 12 => madt_spec | 13 => srat_spec | 14 => slit_spec | 15 => hmat_spec
+  | 16 => pptt_spec | 17 => rhct_spec | 18 => rimt_spec | 19 => viot_spec | 20 => cedt_spec | 21 => hest_spec
+  | 22 => rqsc_spec | 23 => tpm2_spec | 24 => tpmserver_spec | 25 => tpmclient_spec | 26 => fadt_spec
+  | 27 => bert_spec | 28 => spcr_spec | 29 => facs_spec | 30 => rsdp_spec | 31 => sdt_spec
+  | _ => null_spec
+  end.
+
+Definition is_table (comp : N) : bool := (10 <=? comp) && (comp <=? 31).
+
+(* C01 / C02 special cases: the RSDP has two checksums and its length at offset 20; the FACS has no checksum *)
+Definition c01_table_oracle (comp : N) (c : sx) (evs : list ev) : bool :=
+  match comp with
+  | 29 => true
+  | 30 => forallb (fun e => match e with EvBytes img => (sum8 img =? 0) && (sum8 (firstn 20 img) =? 0) | _ => true end) evs
+  | _ => c01_oracle c evs
+  end.
+
+Definition c02_table_oracle (comp : N) (c : sx) (evs : list ev) : bool :=
+  match comp with
+  | 30 => forallb (fun e => match e with EvBytes img => (field_at img 20 4 =? 36) && Nat.eqb (length img) 36 | _ => true end) evs
+  | 29 => forallb (fun e => match e with EvBytes img => (field_at img 4 4 =? 64) && Nat.eqb (length img) 64 | _ => true end) evs
+  | _ => c02_oracle c evs
   end.
 
 (* prop is the numeric part of the property id (C17 -> 17) *)
 Definition oracle (prop comp : N) (c : sx) (impl : list ev) : bool :=
+  if is_table comp then
+    match prop with
+    | 1 => c01_table_oracle comp c impl
+    | 2 => c02_table_oracle comp c impl
+    | 3 => c03_oracle (spec_of comp) c impl
+    | 4 | 11 => c04_oracle (spec_of comp) c impl
+    | 5 => c05_oracle (spec_of comp) c impl
+    | 12 => c04_oracle (spec_of comp) c impl && c01_table_oracle comp c impl
+    | 13 => c04_oracle (spec_of comp) c impl && c01_table_oracle comp c impl && c02_table_oracle comp c impl
+    | _ => true
+    end
+  else
   match prop, comp with
   | 17, 1 => ck_oracle c impl
   | 7, 2 => pkglen_oracle c impl
